@@ -333,14 +333,13 @@ func TestC11Percentiles(t *testing.T) {
 	})
 }
 
+// many samples: the digest's last centroids hold several values each only from some ten
+// thousand samples on, which is where tail interpolation (the top rows of the HDR report) matters
 func TestC11PercentilesLarge(t *testing.T) {
-	if !vh.Thorough() {
-		t.Skip("thorough only")
-	}
-	vh.Check(t, 1, 20, func(t *rapid.T) {
-		c := c11Gen(t, 100000)
-		if len(c.Lat) < 20000 {
-			c = c11Gen(t, 100000)
+	vh.Check(t, 3, 5, func(t *rapid.T) {
+		c := c11Gen(t, 150000)
+		for i := 0; len(c.Lat) < 30000 && i < 3; i++ {
+			c = c11Gen(t, 150000)
 		}
 		c11Run(t, c)
 	})
